@@ -37,8 +37,36 @@ void barrier_base_ctor(struct barrier_base *self, ptrdiff_t expected)
 //@LIFT ctor
 #endif
 
-#ifndef VX_MAX_EXPECTED
-#define VX_MAX_EXPECTED 6
+#ifdef U_BOUNDED
+/* Serialized-arrival invariant of one phase (hand-written, used only by the bounded step harness U_STEP):
+ * every reachable ticket of round rd holds old / half / full of the phase (never half on an odd last node); with
+ * fill(old) = 0, fill(half) = 1, fill(full) = 2 (1 on an odd last node):  sum of fills of round 0 == arrivals so far,
+ * sum of fills of round rd+1 == number of full nodes of round rd (the winners that moved on). */
+static bool phase_inv(ptrdiff_t expected, barrier_phase_t tok, long *arrived)
+{
+  size_t ce = (size_t) expected;
+  long need = 0;
+  bool ok = true;
+  *arrived = 0;
+  for (int rd = 0; ce > 1; rd++)
+  {
+    size_t en = (ce + 1) >> 1;
+    long F = 0, W = 0;
+    for (size_t n = 0; n < en; n++)
+    {
+      barrier_phase_t v = g_state[n].tickets[rd];
+      bool odd_last = (n == en - 1) && (ce & 1);
+      if (v == tok) { }
+      else if (v == HALF(tok)) { if (odd_last) ok = false; F += 1; }
+      else if (v == FULL(tok)) { F += odd_last ? 1 : 2; W += 1; }
+      else ok = false;
+    }
+    if (rd == 0) *arrived = F; else if (F != need) ok = false;
+    need = W;
+    ce = en;
+  }
+  return ok;
+}
 #endif
 
 void harness(void)
@@ -65,7 +93,47 @@ void harness(void)
   if (g_self_id == 0) VX_REACH("not_a_pika_thread");
   if (g_token >= 254) VX_REACH("phase_wraps");
 #endif
-#ifdef U_BOUNDED
+#ifdef U_STEP
+  /* ONE arrival from ANY state satisfying the serialized-arrival invariant phase_inv (any phase byte, any number of earlier
+   * arrivals with any start indices, arbitrary stale bytes in unreachable tickets): the invariant is re-established with one
+   * more arrival counted, and the arrival returns true iff it is the expected-th.  Base case: all reachable tickets == token
+   * satisfies phase_inv with 0 arrivals (asserted).  After the expected-th arrival every reachable ticket is full. */
+  struct state_t nondet_vxraw_state(void);
+  ptrdiff_t expected = nondet_ptrdiff();
+  if (expected < 1 || expected > VX_MAX_EXPECTED) return;
+  barrier_base_ctor(&b, expected);
+  barrier_phase_t phase = nondet_u8();
+  g_token = phase; g_expected = expected;
+  long before, after;
+  bool base = nondet_bool();
+  for (int n = 0; n < VX_MAXNODES; n++) g_state[n] = nondet_vxraw_state();
+  if (base)
+  {
+    size_t ce = (size_t) expected;
+    for (int rd = 0; ce > 1; rd++) { size_t en = (ce + 1) >> 1; for (size_t n = 0; n < en; n++) g_state[n].tickets[rd] = phase; ce = en; }
+    VX_ASSERT(phase_inv(expected, phase, &before) && before == 0, "base case: a fresh phase satisfies the invariant with 0 arrivals");
+    VX_REACH("base_case");
+  }
+  if (!phase_inv(expected, phase, &before)) return;   /* induction hypothesis */
+  if (before >= expected && expected > 1) return;     /* the phase still expects arrivals (caller's duty) */
+  g_self_id = nondet_size();
+  bool r = base_arrive(&b, expected, phase);
+  bool ok = phase_inv(expected, phase, &after);
+  VX_ASSERT(ok, "the serialized-arrival invariant is re-established by an arrival");
+  VX_ASSERT(expected == 1 || after == before + 1, "an arrival is counted exactly once in round 0");
+  VX_ASSERT(r == (expected == 1 || after == expected), "exactly the expected-th arrival of a phase returns true, no earlier one");
+  if (r)
+  {
+    size_t ce = (size_t) expected;
+    for (int rd = 0; ce > 1; rd++) { size_t en = (ce + 1) >> 1;
+      for (size_t n = 0; n < en; n++) VX_ASSERT(g_state[n].tickets[rd] == FULL(phase), "after the last arrival every ticket of the phase is full == next phase's token (reusable)");
+      ce = en; }
+    VX_REACH("last_arrival");
+    if (FULL(phase) == 0) VX_REACH("wrapped_254_to_0");
+  }
+  else VX_REACH("earlier_arrival");
+  if (!r && g_full_steps >= 2) VX_REACH("won_two_rounds_then_first_of_two");
+#elif defined(U_BOUNDED)
   /* serialized arrivals, expected <= VX_MAX_EXPECTED, ONE phase from an ARBITRARY phase-boundary state: arbitrary phase byte
    * (covers the 254 -> 0 wrap), every ticket the phase can touch holds the phase token, all other tickets hold arbitrary
    * stale bytes.  After the phase the boundary condition is asserted again for the next token, for the same expected count
@@ -74,6 +142,9 @@ void harness(void)
   struct state_t nondet_vxraw_state(void);
   ptrdiff_t expected = nondet_ptrdiff();
   if (expected < 1 || expected > VX_MAX_EXPECTED) return;
+#ifdef VX_EXPECTED
+  if (expected != VX_EXPECTED) return;   /* case split over the participant count: one instance per value */
+#endif
   barrier_base_ctor(&b, expected);
   barrier_phase_t phase = nondet_u8();
   for (int n = 0; n < VX_MAXNODES; n++) g_state[n] = nondet_vxraw_state();
@@ -98,6 +169,5 @@ void harness(void)
   if (expected > 1) VX_BOUNDARY(expected - 1, phase)
   if (phase == 0) VX_REACH("wrapped_254_to_0");
   VX_REACH("phase_completed");
-  if (expected == 5) VX_REACH("odd_count");
 #endif
 }
